@@ -16,6 +16,14 @@ class Infra(Exception):
     pass
 
 
+class VhStuck(Infra):
+    """A driver run exceeded its watchdog; dump = file with its goroutine dump."""
+
+    def __init__(self, msg, dump="", stderr=""):
+        super().__init__(msg)
+        self.dump, self.stderr = dump, stderr
+
+
 class Crash(Exception):
     """The harness process died with a panic raised inside the code under test."""
 
@@ -122,10 +130,29 @@ class Ctx:
             raise Infra("go build failed:\n" + p.stdout[-3000:] + p.stderr[-3000:])
         return out
 
-    def run_vh(self, args, timeout=1800, race=False, cwd=None):
+    def run_vh(self, args, timeout=1800, race=False, cwd=None, watchdog=None):
+        """watchdog: seconds after which the driver is sent SIGQUIT (its goroutine dump is kept in the work directory) and
+        VhStuck is raised - for drivers whose normal running time is known, so that a rare stall can be retried."""
         vh = self.build_vh(race=race)
         if self.tier == "thorough":
             timeout = max(timeout, 4 * 3600)
+        if watchdog:
+            import signal
+            pr = subprocess.Popen([vh] + args, cwd=cwd or self.work, env=self.env, stdout=subprocess.PIPE, stderr=subprocess.PIPE, text=True)
+            try:
+                out, err = pr.communicate(timeout=watchdog)
+                return subprocess.CompletedProcess([vh] + args, pr.returncode, out, err)
+            except subprocess.TimeoutExpired:
+                pr.send_signal(signal.SIGQUIT)
+                try:
+                    out, err = pr.communicate(timeout=20)
+                except subprocess.TimeoutExpired:
+                    pr.kill()
+                    out, err = pr.communicate()
+                n = len([f for f in os.listdir(self.work) if f.startswith("stuck-")])
+                dump = os.path.join(self.work, f"stuck-{n}.txt")
+                open(dump, "w").write(" ".join(args) + "\n" + (err or "")[-400000:])
+                raise VhStuck(f"vh {args[0]} did not finish within {watchdog}s (goroutine dump: {dump})", dump, err or "")
         try:
             p = subprocess.run([vh] + args, cwd=cwd or self.work, env=self.env, capture_output=True, text=True, timeout=timeout)
         except subprocess.TimeoutExpired:
